@@ -80,6 +80,11 @@ type (
 		MemoryInstance *MemoryInstance
 		Tables         []*TableInstance
 
+		// importedFuncrefGlobalOwners holds the instances from which this one imports funcref globals. The value of such
+		// a global is a raw pointer into the engine objects of the exporting instance, which only that instance keeps
+		// reachable: an importer has to keep it alive like a table does with involvingModuleInstances.
+		importedFuncrefGlobalOwners []*ModuleInstance
+
 		// Engine implements function calls for this module.
 		Engine ModuleEngine
 
@@ -521,6 +526,9 @@ func (m *ModuleInstance) resolveImports(ctx context.Context, module *Module) (er
 					return
 				}
 				m.Globals[i.IndexPerType] = importedGlobal
+				if importedGlobal.Type.ValType == ValueTypeFuncref {
+					m.importedFuncrefGlobalOwners = append(m.importedFuncrefGlobalOwners, importedModule)
+				}
 			}
 		}
 	}
